@@ -55,7 +55,7 @@ def plan(tier, seed):
 def mandatory(tier):
     out = [f"model/{m}" for m in MODELS] + [f"kind/{k}" for k in X.KINDS]
     out += [f"flags/{f}" for f in ["link=False,update=False", "link=False,update=True", "link=True,update=False", "link=True,update=True", "inv"]]
-    out += [f"change/{c}" for c in CHANGES] + ["before_change", "after_change"]
+    out += [f"change/{c}" for c in CHANGES] + ["before_change", "after_change", "updated_buffers_forward"]
     return out
 
 
@@ -142,8 +142,14 @@ def run_item(ctx, item):
     x = torch.tensor(rng.uniform(-0.6, 0.6, size=(1, 13, D)), dtype=torch.float32)
 
     def check(stage, inv):
+        ready = stage == "before_change" and (flags == "inv" or flags[1])
         with torch.no_grad():
             y = t(x)
+            back_f = di = None
+            if ready:  # before the first __call__ of the inverse: its pre-forward hook would recompute the buffers
+                with ctx.guard("inverse(update_buffers=True).forward()", key=f"exc/inverse_ready/{info['model']}[{kind}]", history=list(history), **info):
+                    back_f = inv.forward(y)
+                    di = None if inv.linear else inv.disp().numpy()
             back = inv(y)
             fwd = t(inv(x))
         xb = np.broadcast_to(x.numpy(), back.shape)
@@ -152,6 +158,15 @@ def run_item(ctx, item):
         ctx.true("forward_is_not_identity", moved > 1e-4, key="generator/identity", stage=stage, **info)
         ctx.close("inverse_after_forward_is_identity", back, xb, tol, key=f"inverse/{stage}/{'velocity' if velocity else 'linear'}", stage=stage, history=list(history), moved=moved, **info)
         ctx.close("forward_after_inverse_is_identity", fwd, xb, tol, key=f"inverse/{stage}/{'velocity' if velocity else 'linear'}", stage=stage, history=list(history), moved=moved, **info)
+        if ready and back_f is not None:
+            # update_buffers=True promises an inverse that is ready to use: forward() / disp() without the call hook
+            ctx.bucket("updated_buffers_forward")
+            ctx.close("inverse_with_updated_buffers_is_ready_without_call_hook", back_f, xb, tol, key=f"inverse/updated_buffers/{'velocity' if velocity else 'linear'}", stage=stage, history=list(history), **info)
+            if di is not None:
+                with torch.no_grad():
+                    xg = g.coords().unsqueeze(0)
+                    ui = np.moveaxis((inv(xg) - xg).numpy(), -1, 1)
+                ctx.close("inverse_disp_with_updated_buffers_equals_its_point_map", di, ui, tol, key=f"inverse/updated_buffers/{'velocity' if velocity else 'linear'}", stage=stage, history=list(history), **info)
 
     inv = None
     with ctx.guard("inverse", key=f"exc/inverse/{flag_name(flags)}/{kind}", history=history, **info):
